@@ -17,6 +17,11 @@ type evalCtx struct {
 	fr    *Frame
 	bound map[string]Val
 	inOld bool
+	// goal: the expression is a proof goal (not an assumption); neg: number of negations above the current
+	// subexpression. In a goal, a disjunct at positive polarity that is not well defined at this program
+	// point (a local that is not in scope) is dropped - which only makes the goal harder to prove.
+	goal bool
+	neg  int
 }
 
 func (c *evalCtx) state() *State {
@@ -50,7 +55,13 @@ func (x *Exec) evalExpr(c *evalCtx, e Expr) (Val, error) {
 	case EIdent:
 		return x.evalIdent(c, v.Name)
 	case EUn:
+		if v.Op == "!" {
+			c.neg++
+		}
 		a, err := x.evalExpr(c, v.X)
+		if v.Op == "!" {
+			c.neg--
+		}
 		if err != nil {
 			return Val{}, err
 		}
@@ -129,8 +140,84 @@ func (x *Exec) lookupConst(name string) (Val, bool) {
 	return Val{}, false
 }
 
+// flattenOp lists the operands of a left-associated chain of op.
+func flattenOp(e Expr, op string) []Expr {
+	if b, ok := e.(EBin); ok && b.Op == op {
+		return append(flattenOp(b.L, op), flattenOp(b.R, op)...)
+	}
+	return []Expr{e}
+}
+
+func (x *Exec) knownTruth(c *evalCtx, e Expr, v Val) (isTrue, isFalse bool) {
+	if v.K != VScalar || v.T.Sort != SBool {
+		return false, false
+	}
+	if isLit(v.T, "true") {
+		return true, false
+	}
+	if isLit(v.T, "false") {
+		return false, true
+	}
+	st := c.state()
+	if st == nil {
+		return false, false
+	}
+	if st.Known.has(v.T.S) {
+		return true, false
+	}
+	if st.Known.has(Not(v.T).S) {
+		return false, true
+	}
+	if u, ok := e.(EUn); ok && u.Op == "!" {
+		if iv, err := x.evalExpr(c, u.X); err == nil {
+			f, t := x.knownTruth(c, u.X, iv)
+			return t, f
+		}
+	}
+	return false, false
+}
+
 func (x *Exec) evalBin(c *evalCtx, b EBin) (Val, error) {
+	if b.Op == "||" || b.Op == "&&" {
+		// operands in order; an operand that is not well defined (a local that is not in scope at this
+		// program point) is irrelevant once an earlier operand decides the result on this path
+		ops := flattenOp(b, b.Op)
+		if len(ops) >= 2 {
+			acc := BoolT(b.Op == "&&")
+			for _, o := range ops {
+				v, err := x.evalExpr(c, o)
+				if err != nil {
+					if c.goal && c.neg%2 == 0 && b.Op == "||" && strings.Contains(err.Error(), "unknown identifier") {
+						continue
+					}
+					return Val{}, err
+				}
+				if v.K != VScalar || v.T.Sort != SBool {
+					return Val{}, fmt.Errorf("operand of %s is not boolean", b.Op)
+				}
+				t, f := x.knownTruth(c, o, v)
+				if b.Op == "||" {
+					if t {
+						return boolV(BoolT(true)), nil
+					}
+					acc = Or(acc, v.T)
+				} else {
+					if f {
+						return boolV(BoolT(false)), nil
+					}
+					acc = And(acc, v.T)
+				}
+			}
+			return boolV(acc), nil
+		}
+	}
+	if b.Op == "==>" {
+		c.neg++
+	}
 	l, err := x.evalExpr(c, b.L)
+	if b.Op == "==>" {
+		c.neg--
+	}
 	if err != nil {
 		return Val{}, err
 	}
@@ -288,7 +375,7 @@ func (x *Exec) evalSel(c *evalCtx, s ESel) (Val, error) {
 	}
 	pt, su, ok := derefStruct(base.GoT)
 	if !ok {
-		return Val{}, fmt.Errorf("selector .%s on non-struct %s", s.Field, base.GoT)
+		return Val{}, fmt.Errorf("selector .%s on non-struct %s (in %v)", s.Field, base.GoT, s.X)
 	}
 	for i := 0; i < su.NumFields(); i++ {
 		f := su.Field(i)
@@ -729,6 +816,51 @@ func (x *Exec) evalCall(c *evalCtx, call ECall) (Val, error) {
 		inner := arrSort(ks, SBool)
 		vis := Select(x.heapCur(st, itVisited+"!"+ks, x.itSort(ks)), itv.Parts[1].T, inner)
 		return boolV(Select(vis, a[0].T, SBool)), nil
+	case "deref":
+		// deref(p): the value the pointer p points to
+		if _, ok := a[0].GoT.Underlying().(*types.Pointer); !ok {
+			return Val{}, fmt.Errorf("deref: not a pointer")
+		}
+		return x.load(st, nil, a[0], a[0].GoT), nil
+	case "hsComplete":
+		x.Reg.DeclareFun("hsComplete", []string{SInt}, SBool)
+		return boolV(app("hsComplete", SBool, a[0].T)), nil
+	case "smHasK", "smGetK":
+		// sync.Map model with a raw interface key
+		if call.Fn == "smHasK" {
+			return boolV(Select(x.smHasArr(st, a[0].T), a[1].T, SBool)), nil
+		}
+		return Val{K: VIface, T: Select(x.smValArr(st, a[0].T), a[1].T, SInt), GoT: types.NewInterfaceType(nil, nil)}, nil
+	case "smWf":
+		// smWf(m, "pkg.T"): every key of the sync.Map is a string and every value a non-nil *pkg.T
+		x.declIfaceFns()
+		mt := x.lookupNamed(strings.Trim(a[1].T.S, `"`))
+		if mt == nil {
+			return Val{}, fmt.Errorf("smWf: unknown type %s", a[1].T.S)
+		}
+		pt := types.NewPointer(mt)
+		x.declareTagDistinct(pt)
+		x.declareTagDistinct(types.Typ[types.String])
+		h, v := x.smHasArr(st, a[0].T), x.smValArr(st, a[0].T)
+		body := fmt.Sprintf("(forall ((k!wf Int)) (! (=> (select %s k!wf) (and (= (dyntag k!wf) %s) (= (dyntag (select %s k!wf)) %s) (> (payl (select %s k!wf)) 0))) :pattern ((select %s k!wf)) :pattern ((select %s k!wf))))", h.S, x.typeTag(types.Typ[types.String]).S, v.S, x.typeTag(pt).S, v.S, h.S, v.S)
+		return boolV(Term{body, SBool}), nil
+	case "isStr":
+		// isStr(x): the interface value holds a string
+		x.declIfaceFns()
+		if a[0].K == VIface && a[0].Dyn != nil {
+			b, ok := a[0].Dyn.Underlying().(*types.Basic)
+			return boolV(BoolT(ok && b.Info()&types.IsString != 0 && types.Identical(a[0].Dyn, types.Typ[types.String]))), nil
+		}
+		x.declareTagDistinct(types.Typ[types.String])
+		return boolV(Eq(app("dyntag", SInt, a[0].T), x.typeTag(types.Typ[types.String]))), nil
+	case "unboxStr":
+		// unboxStr(x): the string held by the interface value
+		x.declIfaceFns()
+		x.strboxDecl()
+		if a[0].K == VIface && a[0].Payload != nil && a[0].Payload.T.Sort == SStr {
+			return strV(a[0].Payload.T), nil
+		}
+		return strV(app("strunbox", SStr, app("payl", SInt, a[0].T))), nil
 	case "dynIs":
 		// dynIs(iface, "types.NodeInformation"): the interface holds a pointer to that named type
 		x.declIfaceFns()
